@@ -379,7 +379,7 @@ def rerun_cases(ctx, inputs, tag="shrink"):
     return out, o
 
 
-def shrink(ctx, case, want_code, budget=40):
+def shrink(ctx, case, want_code, budget=40, want_tag=None):
     cur = case["input"]
     best_side = case
     steps = 0
@@ -394,7 +394,7 @@ def shrink(ctx, case, want_code, budget=40):
         if res is None:
             break
         for (inp, fails, side) in res:
-            if any(code == want_code for code, _ in fails):
+            if any(code == want_code and (want_tag is None or tg == want_tag) for code, tg in fails):
                 cur = inp
                 best_side = side
                 best_side["fails"] = fails
@@ -660,6 +660,7 @@ def run_check(pid, tier, seed, replay):
     spec_fail_cases = [c for c, fs in by_case.items() if any(code == CODE_SPEC or code >= 10 for code, _ in fs)]
     mismatch_cases = [c for c, fs in by_case.items() if all(code == CODE_MISMATCH for code, _ in fs)]
     seen_sigs = {}
+    sig_tag = {}   # the shrinker must stay on the same (code, tag): a smaller input failing for another reason is another violation
     for c in sorted(spec_fail_cases):
         for code, tg in by_case[c]:
             if code == CODE_MISMATCH:
@@ -667,6 +668,7 @@ def run_check(pid, tier, seed, replay):
             sig = tagnames.get(tg, "untagged") if tg else "untagged"
             key = (code, sig)
             seen_sigs.setdefault(key, []).append(c)
+            sig_tag[key] = tg
     known_sigs = {f["sig"]: f for f in findings["finding"] if f["property"] == pid}
     for (code, sig), cs in sorted(seen_sigs.items()):
         if sig in known_sigs:
@@ -677,7 +679,7 @@ def run_check(pid, tier, seed, replay):
         small = c0
         if spec.get("shrink", True) and not os.environ.get("VERIF_NOSHRINK"):
             try:
-                small = shrink(ctx, c0, code)
+                small = shrink(ctx, c0, code, want_tag=sig_tag.get((code, sig)))
             except Exception as e:  # shrinking is best effort
                 log("shrink failed:", e)
         violations.append(("counterexample", spec.get("codes", {}).get(code, "spec_okb"),
